@@ -3,8 +3,9 @@ module verifharness
 go 1.22.0
 
 require (
-	github.com/google/gopacket v1.1.19
+	github.com/bits-and-blooms/bitset v1.22.0
 	github.com/coredhcp/coredhcp v0.0.0
+	github.com/google/gopacket v1.1.19
 	github.com/insomniacslk/dhcp v0.0.0-20241203100832-a481575ed0ef
 	github.com/sirupsen/logrus v1.9.3
 	github.com/spf13/cast v1.7.1
@@ -12,7 +13,6 @@ require (
 )
 
 require (
-	github.com/bits-and-blooms/bitset v1.22.0 // indirect
 	github.com/chappjc/logrus-prefix v0.0.0-20180227015900-3a1d64819adb // indirect
 	github.com/fsnotify/fsnotify v1.8.0 // indirect
 	github.com/go-viper/mapstructure/v2 v2.2.1 // indirect
